@@ -98,10 +98,18 @@ def run(rep):
     if wrongly or len(cans) not in a:
         raise tlc.MachineryError(f"canary failure: accepted {wrongly}; control accepted={len(cans) in a}")
     rep.extra.setdefault("canaries_rejected", []).extend(c[0] for c in cans)
+    # instance() expressions inside label text (InstanceExpr.tla), this property's clauses
+    from harness.props import _instexpr
+
+    _instexpr.run(rep, PROP)
 
 
 def replay(rep, case):
     c = case["case"]
+    if c.get("instexpr"):
+        from harness.props import _instexpr
+
+        return _instexpr.replay(rep, PROP, c)
     if c.get("writer"):
         outs = [_xml.run_writer({"dom": c["dom"]})]
         acc, info = tlc.validate_traces("Trace_Xml", _xml.corpus._cfg("Trace_Xml.cfg", _xml.TRACE_CFG), [o["trace"] for o in outs], shards=1, env={"PROP": PROP}, tag="replay")
